@@ -181,6 +181,12 @@ VARIANTS = [
          expect=("C04-ORIENT", "contract_nodes_pair")),
     dict(name="twin: tie broken by the largest leaf", kind="twin", file=CORE,
          old="            sortx = -min(x)\n            sorty = -min(y)\n", new="            sortx = (-min(x), -max(x))\n            sorty = (-min(y), -max(y))\n"),
+    dict(name="MaxCounter: last copy takes the decrement branch", kind="break", file="cotengra/utils.py",
+         old="        if cnt <= 1:\n            del self._c[x]", new="        if cnt < 1:\n            del self._c[x]", expect=("C04-MAXCOUNT", "last-copy-test")),
+    dict(name="MaxCounter: decrement by the count itself", kind="break", file="cotengra/utils.py",
+         old="            self._c[x] = cnt - 1", new="            self._c[x] = cnt + 1", expect=("C04-MAXCOUNT", "last-copy-test")),
+    dict(name="twin: MaxCounter tests cnt == 1", kind="twin", file="cotengra/utils.py",
+         old="        if cnt <= 1:\n            del self._c[x]", new="        if cnt == 1:\n            del self._c[x]"),
 ]
 for v in VARIANTS:
     v.pop("edits", None) if v.get("edits") is None else None
